@@ -409,3 +409,20 @@ def restore_lands_on_entry(ck, tm, g, rule, roots):
                       fmt(eev.extra["count"].e), fmt(ereal.e, 4)), where(pev))
     ck.floor(rule, "install-paths-with-one-guard-and-one-entry-write", n, 6, tm.target)
     return n
+
+
+def restore_before_release(ck, tm, g, rule):
+    """In the restore guard's destructor the entry is restored before the trampoline is released: while the entry still branches
+    to it the trampoline must stay mapped (a call arriving in between would execute unmapped memory; and when the faked function
+    is the release primitive itself the guard's own release call would land in the fake)."""
+    n = 0
+    for v in tm.variants(g.drop_fn):
+        frees = [e for e in v.trace if e.kind == "ffi" and e.name in FREE_FFI]
+        wr = code_writes(v)
+        if not frees or not wr:
+            continue
+        n += 1
+        ok = max(e.idx for e in wr) < min(e.idx for e in frees)
+        ck.ob(rule, "drop/restore-before-release", tm.target, ok,
+              "destructor path: restoring write %s the release of the trampoline" % ("precedes" if ok else "comes AFTER"), where(frees[0]))
+    return n
